@@ -35,6 +35,9 @@ a try body, yield, return, raise, loop, try, with) under `if`s, in which every e
   * loops that only build a list / dict, append every item, look for a witness (`return` inside, or `break` with `else`) are the
     comprehension / `extend` / `any` they spell out; `if c: continue` at the top of a loop body guards the rest; `min`/`max` of two values are
     the conditional expressions the builtins compute; `d.setdefault(k, v)` as a statement is `if k not in d: d[k] = v`;
+  * a loop over a short literal display without break / continue / else is the sequence of its bodies; `for t in (E for x in S if c)` is the fused loop;
+    `enumerate(S, k)` counts `j + k`; `for k, v in filter(itemgetter(1), X)` is `for k, v in X if v`; a conditional operand of an arithmetic operation is moved
+    outwards (`(a if c else b) + r` is `(a + r) if c else (b + r)`); `try: return E` is `try: v = E` / else `return v`; imports are bindings;
   * arithmetic is flattened: a - b = a + (-1)*b, a / b = a * b**-1, numeric factors collected, operands of * sorted, operands of + sorted when
     the sum is evidently numeric (a number, product, power or quotient occurs in it); a > b is b < a;
   * calls to loop-free helper functions that exist on one side only, or are small and identical on both sides, are replaced by their value;
